@@ -991,7 +991,8 @@ impl CanonicalizeContext {
 				let children = mathml.children();
 				if children.is_empty() {
 					return if parent_requires_child {Some( CanonicalizeContext::make_empty_element(mathml) )} else {None};
-				} else if children.len() == 1 {
+				} else if children.len() == 1 && mathml.attribute(INTENT_ATTR).is_none() {
+					// (with an intent the wrapper becomes an mrow below: the intent refers to the child and must not end up on it)
 					let is_from_mhchem = element_name == "mpadded" && is_from_mhchem_hack(mathml);
 					if let Some(new_mathml) = self.clean_mathml( as_element(children[0]) ) {
 						// "lift" the child up so all the links (e.g., siblings) are correct
